@@ -126,8 +126,8 @@ def mkWf (deps : List (Nat × List Nat)) (bs : List Char) (stale : List Char) : 
     stale := fun t => stale.getD t '0' == '1' }
 
 def showSState (st : SState) : String :=
-  "cache=" ++ ";".intercalate (st.cache.map (fun p => toString p.1 ++ ":" ++ p.2.name))
-   ++ " log=" ++ ";".intercalate (st.log.map (fun p => toString p.1 ++ ":" ++ showNats p.2))
+  "cache=" ++ ";".intercalate (st.cache.reverse.map (fun p => toString p.1 ++ ":" ++ p.2.name))
+   ++ " log=" ++ ";".intercalate (st.chron.map (fun p => toString p.1 ++ ":" ++ showNats p.2))
 
 
 /-! ### whole-project descriptions:
@@ -170,7 +170,7 @@ def sortPairs {β} (ds : List (Nat × β)) : List (Nat × β) :=
 
 def showPlan (st : SState) : String :=
   "ok status=" ++ ",".intercalate ((sortPairs st.cache).map (fun p => toString p.1 ++ ":" ++ p.2.name))
-   ++ " log=" ++ ";".intercalate (st.log.map (fun p => toString p.1 ++ ":" ++ showNats p.2))
+   ++ " log=" ++ ";".intercalate (st.chron.map (fun p => toString p.1 ++ ":" ++ showNats p.2))
 
 def showGraphH (g : Graph String) : String :=
   showGraph { g with provides := g.provides.map (fun p => (toh p.1, p.2)), unresolved := g.unresolved.map toh }
@@ -215,6 +215,23 @@ def dispatch (toks : List String) : String :=
     (match parseProj rest with
      | some p => (match p.plan with | .error e => "err " ++ e.name | .ok st => showPlan st)
      | none => "bad-op")
+  -- p.C02 <proj> S <L id:status,...> G <L t:deps;...>   (observed behaviour of the implementation)
+  | "p.C02" :: rest =>
+    (match rest.reverse with
+     | g :: "G" :: s :: "S" :: projRev =>
+       (match parseProj projRev.reverse with
+        | some p =>
+          (match p.graph with
+           | .error e => "err " ++ e.name
+           | .ok gr =>
+             let status := (unlist s).filterMap (fun e => match e.splitOn ":" with
+               | [k, v] => (Status.ofName? v).map (fun st => (nat! k, st))
+               | _ => none)
+             let log := parseDeps g
+             let fails := Spec.c02 (p.wf gr) (gr.ids.length + 1) (p.endpoints gr) status log
+             if fails.isEmpty then "ok" else "fail " ++ ",".intercalate fails)
+        | none => "bad-op")
+     | _ => "bad-op")
   | _ => "bad-op"
 
 end Drv
